@@ -5,6 +5,9 @@ HERE = os.path.dirname(os.path.dirname(os.path.abspath(__file__)))
 ALL = ["C%02d" % i for i in range(1, 21)]
 
 CHECKS = {
+ "C18": dict(cat="exploration", tech="controlled-scheduler execution of the real FileCache (lock, executor, open/os replaced by scheduler-aware versions) + per-file Wing-Gong linearizability check against a sequential register + quiescent final-state/accounting check",
+   text="Two client threads (thorough: up to three, two files, small limits) each performing one or two of get/update/unload run against the real FileCache under a scheduler that owns every lock acquisition, task submission/completion, future wait and file-system call; schedules are drawn uniformly, with few preemptions, and by depth-first enumeration with preemption bound 2 on the smallest mixes. Each complete history (unique written values) is searched exhaustively for a linearization; deadlock is decided logically; at quiescence disk, cache and accounting are compared. Held on the schedules observed; known load/write and unload races are listed as findings, so detection power on mixed get/update/unload cells is limited to other oracle kinds.",
+   note="yield points are the only schedule-dependent places; interleavings inside CPython bytecode between them and beyond the preemption bound are not explored.", ref="DESIGN.md §4 C18"),
  "C17": dict(cat="fault_enumeration", tech="strace-recorded syscall trace of the real KeyValueStorage + crash-image enumeration under a POSIX-style persistence model (every trace prefix x loss choice x model), each image read by a fresh real store; plus real SIGKILL at every interposed file-operation boundary",
    text="For each script of sets the real store runs in a child under strace; every prefix of the recorded mkdir/openat/write/fsync/close trace is combined with every allowed loss of unsynced data (all lost, all kept, truncation only, 1-byte and half prefixes) under a weak (fsync commits earlier metadata) and a strict (new entries need a directory fsync) model; each image is materialised and read back by a fresh KeyValueStorage: acknowledged keys must read their value, other keys must be unaffected. The enumeration is exhaustive over the recorded trace for the stated loss choices; the child is additionally killed for real at each file-operation boundary.",
    note="trusted base: the persistence model in vf/ref/persist.py, strace's ordering of syscalls across threads, deterministic pickle output.", ref="DESIGN.md §4 C17"),
